@@ -9,7 +9,9 @@
                            verify_xor (key recovered from the ATOM) /
                            verify_base64 (window from the 9-entry table)
      handle_sub_pattern_match -> track_match -> PatternMatches::add
-                           (replace_if_longer = false for this family)
+                           (replace_if_longer = true for this family since commit a09b6a08:
+                           of several sub-patterns matching at one start the longest wins,
+                           whatever the order the atoms are found in; false before)
 
    The sub-patterns and atoms are inputs: in K stream (d) they are the real
    ones dumped from the compiled rules.  Definitions only; the theorems are in
@@ -184,7 +186,7 @@ Definition handle_hit (sps : list subpat) (atoms : list atom) (d : bytes) (h : h
 
 (* the matches of one pattern (all of its sub-patterns), as PatternMatches::add builds them *)
 Definition scan_pipeline (sps : list subpat) (atoms : list atom) (hits : list hit) (d : bytes) : match_list :=
-  run_adds (map (fun r => (mtch_of r, false))
+  run_adds (map (fun r => (mtch_of r, true))
                 (flat_map (fun sp => opt_list (verify_anchored sp d)) sps ++
                  flat_map (fun h => opt_list (handle_hit sps atoms d h)) hits)).
 
